@@ -11,7 +11,10 @@ ops (cursor names are decimal numbers):
   st → <seq>.<used>.<bufferSize>.<pollCount>.<dupCount>/L<sid>,<seq>,<pollCount>,<pollIndex>,<dlen>|…/F<sid>,<seq>,<pollCount>,<pollIndex>|…
 An unknown cursor prints `nocursor`; a panic prints `panic` and ends the line.
 
-  replsync <initial size> <max size> <ev>;<ev>;…     → <obs>;<obs>;…      (see Slock.Repl.Sync in Model/Repl.lean)
+  replsync <initial size> <max size> <ev>;<ev>;…     → <obs>;<obs>;…      (handshake model, `Slock.Repl.Sync` in Model/Repl.lean)
+events: append[:<dlen>] → ok      connect:<f> → full:<H> | resume:<id> | end:<id> | notfound-full:<H> | noop
+  deliver:<f> → file:<id> | filesdone | send:<id> | pop:<id> | idle | oob | noop        cut:<f> → ok | noop
+  st → n=<leader records> f<k>=<curId>/<conn>/[applied ids] …
 -/
 namespace Driver
 open Slock.Repl
@@ -61,7 +64,53 @@ def rRun : Sys → List String → List String → List String
         | .res .panic _ => ("panic" :: acc).reverse
         | ob => rRun r.1 ops (rShowObs ob :: acc)
 
+def rShowConn : Conn → String
+  | .off => "off"
+  | .files h p => s!"files.{h}.{p}"
+  | .stream => "stream"
+
+def rShowFol (p : Nat × Fol) : String :=
+  s!"f{p.1}={p.2.curId}/{rShowConn p.2.conn}/[" ++ ",".intercalate (p.2.log.map toString) ++ "]"
+
+def rShowSync (s : Sync) : String :=
+  s!"n={s.log.length} " ++ " ".intercalate (s.fols.map rShowFol)
+
+def rShowSObs : SObs → String
+  | .ok => "ok"
+  | .full h => s!"full:{h}"
+  | .retryFull h => s!"notfound-full:{h}"
+  | .resume i => s!"resume:{i}"
+  | .atEnd i => s!"end:{i}"
+  | .file i => s!"file:{i}"
+  | .filesDone => "filesdone"
+  | .send i => s!"send:{i}"
+  | .popped i => s!"pop:{i}"
+  | .idle => "idle"
+  | .outOfBuf => "oob"
+  | .noop => "noop"
+
+def rParseEv (e : String) : Option Ev :=
+  match e.splitOn ":" with
+  | ["append", d] => do pure (.append (← d.toNat?))
+  | ["append"] => some (.append 0)
+  | ["connect", n] => do pure (.connect (← n.toNat?))
+  | ["deliver", n] => do pure (.deliver (← n.toNat?))
+  | ["cut", n] => do pure (.cut (← n.toNat?))
+  | _ => none
+
+def rSRun : Sync → List String → List String → List String
+  | _, [], acc => acc.reverse
+  | s, e :: es, acc =>
+    if e == "st" then rSRun s es (rShowSync s :: acc)
+    else match rParseEv e with
+      | none => ("bad-op" :: acc).reverse
+      | some ev => let r := sstep s ev; rSRun r.1 es (rShowSObs r.2 :: acc)
+
 def handleRepl : List String → Option String
+  | ["replsync", b, m, evs] => do
+    let b ← b.toNat?
+    let m ← m.toNat?
+    some (";".intercalate (rSRun (Sync.init b m) ((evs.splitOn ";").filter (· ≠ "")) []))
   | ["replq", b, m] => do
     let _ ← b.toNat?
     let _ ← m.toNat?
